@@ -66,6 +66,7 @@ Inductive err :=
 | EThetaSpec            (* "Must specify one of theta_deg or theta_external_deg"  (config/mod.rs, try_as_beam) *)
 | EAutoThetaWithPoling  (* "Can not autocalc theta when periodic poling is enabled..." (config/mod.rs, try_as_spdc) *)
 | ESignalLePump         (* "Signal wavelength must be greater than Pump wavelength" (beam/mod.rs, IdlerBeam::try_new_optimum) *)
+| EBadPeriod            (* "Poling period must be a finite, non-zero number" (config/periodic_poling_config.rs, explicit period) *)
 | EImpossiblePeriod.    (* "Could not determine poling period from specified values" (periodic_poling.rs, optimum_poling_period) *)
 
 Inductive site :=
